@@ -22,6 +22,7 @@ EXPLANATION = (
     "transaction and sload/sstore select the map by the transient flag only. Alias resolution for symbolic keys "
     "(values) is not decided."
     ' Round 4: every computed keccak is registered (C01 R01.4), since both layouts recognise a location through that registry.'
+    ' Round 5: rollback pairing of sub-frames (C09 R09.1) and the etch effect (C14 R14.2) are evaluated here too.'
 )
 ASSUMPTIONS = ["Keccak-256 implementation in hsa/keccak.py (self-checked against known vectors and two in-repo constants)", "z3 Store/Select semantics"]
 
